@@ -128,6 +128,24 @@ mod harnesses {
         }
     }
 
+    /// C06 / C02: every expected item except "any word" reports its own `||` level (the emitters
+    /// unwrap it for every item they list), "any word" has none, and is_star holds exactly for it.
+    /// Full domain of the extracted enum, loop-free.
+    #[kani::proof]
+    fn inp_every_item_reports_its_level() {
+        let a = any_inp();
+        match &a {
+            Inp::Literal { fallback_level, .. } | Inp::Subword { fallback_level, .. } | Inp::Command { fallback_level, .. } | Inp::Compadd { fallback_level, .. } => {
+                assert!(a.get_fallback_level() == Some(*fallback_level));
+                assert!(!a.is_star());
+            }
+            Inp::Star => {
+                assert!(a.get_fallback_level().is_none());
+                assert!(a.is_star());
+            }
+        }
+    }
+
     /// C04: the index base added to every state / literal id on output is the shell's documented
     /// array base: bash 0, fish 1, zsh 1, PowerShell 0.
     #[kani::proof]
